@@ -42,4 +42,30 @@ CONTRACTS[M + "from_Note"] = dict(
                      ("length", "len(result) == len(R0) + (oct - note.octave)"), ("counter", "oct <= 3 and oct >= note.octave")],
                 decreases="3 - oct"),
     },
-    modifies=[], properties=["C19"], battery="ly_notes")
+    modifies=[], pure=True, properties=["C19"], battery="ly_notes")
+
+
+# a container without a duration: a rest, the single note, or the notes in order inside < > separated by one space
+CLASSES = {"NoteContainer": {"class": "mingus.containers.note_container.NoteContainer", "fields": {"notes": "[Note]"}}}
+_N = "module_value('mingus.extra.lilypond.from_Note')(nc.notes[%d], True, False)"
+_BODY = {0: "'r'", 1: _N % 0, 2: "'<' + %s + ' ' + %s + '>'" % (_N % 0, _N % 1),
+         3: "'<' + %s + ' ' + %s + ' ' + %s + '>'" % (_N % 0, _N % 1, _N % 2)}
+_BODY_EXPR = "(%s if len(nc.notes) == 0 else %s if len(nc.notes) == 1 else %s if len(nc.notes) == 2 else %s)" % (
+    _BODY[0], _BODY[1], _BODY[2], _BODY[3])
+CONTRACTS[M + "from_NoteContainer"] = dict(
+    params={"nc": "NoteContainer", "duration": "None", "standalone": "bool"},
+    requires="all([is_name(n.name) for n in nc.notes])", returns="str",
+    cases=[dict(when="not standalone", returns="str",
+                ensures=[("rest-note-or-chord-in-order", "result == %s" % _BODY_EXPR)]),
+           dict(when=None, returns="str",
+                ensures=[("the-same-inside-braces", "result == '{ ' + %s + ' }'" % _BODY_EXPR)])],
+    variants=[dict(name="rest", params={"nc": "None", "duration": "None", "standalone": "bool"}, requires=None,
+                   split=None,
+                   cases=[dict(when="not standalone", returns="str", ensures=[("a-rest", "result == 'r'")]),
+                          dict(when=None, returns="str", ensures=[("a-rest-in-braces", "result == '{ r }'")])])],
+    split=[{"field_types": {"nc.notes": "[" + ",".join(["Note"] * k) + "]"}} for k in range(0, 2)], split_is_domain=True,
+    modifies=[], properties=["C19"], battery="ly_containers",
+    notes="deductive domain: containers of 0 or 1 notes with arbitrary names and octaves, no duration; chords of 2 and "
+          "more notes are the SAME clause checked at run time over the battery (bounded: equalities between "
+          "concatenations of several strings of unknown length stay 'unknown' in both solvers); the duration suffix "
+          "goes through value.determine and str() and is the driver's")
